@@ -48,9 +48,6 @@ func (w *World) Entry(e string, s *Swap) string {
 	case "msg_coop_bad":
 		return errs(w.Deliver(Peer, s.CoopClose(false)))
 	case "msg_opening":
-		if s.Otb == nil {
-			return errs(w.Deliver(Peer, w.PeerOpening(s)))
-		}
 		return errs(w.Deliver(Peer, s.Otb))
 	case "msg_agreement":
 		if s.Role == "in_sender" {
@@ -61,7 +58,7 @@ func (w *World) Entry(e string, s *Swap) string {
 	case "msg_req_in", "msg_req_out":
 		role := map[string]string{"msg_req_in": "in_receiver", "msg_req_out": "out_receiver"}[e]
 		stage := map[string]string{"msg_req_in": "await_opening", "msg_req_out": "await_fee"}[e]
-		_, err := w.Prepare(role, s.Chain, stage)
+		_, err := w.PrepareWith(Third, role, s.Chain, stage)
 		return errs(err)
 	case "pay_claim":
 		if w.LN.PeerPays(s.ID, swap.INVOICE_CLAIM) {
@@ -108,10 +105,10 @@ func (w *World) Entry(e string, s *Swap) string {
 		w.Notify(s.Chain, tip)
 		return "ok"
 	case "rpc_swapout":
-		_, err := w.Svc.SwapOut(Peer, s.Chain, nextScid(), Me, 1000000, 20000)
+		_, err := w.Svc.SwapOut(Third, s.Chain, nextScid(), Me, 1000000, 20000)
 		return errs(err)
 	case "rpc_swapin":
-		_, err := w.Svc.SwapIn(Peer, s.Chain, nextScid(), Me, 1000000, 20000)
+		_, err := w.Svc.SwapIn(Third, s.Chain, nextScid(), Me, 1000000, 20000)
 		return errs(err)
 	case "rpc_resend":
 		return errs(w.Svc.ResendLastMessage(s.ID))
@@ -164,7 +161,7 @@ func chainOf(watcher, chain string) (string, Cfg) {
 }
 
 func lockWait(st string) bool {
-	return strings.HasPrefix(st, "sync.") || st == "semacquire"
+	return strings.HasPrefix(st, "sync.") || st == "semacquire" || st == "chan send"
 }
 
 // RunSchedule executes one deterministic schedule in a fresh world and writes its trace.
@@ -205,8 +202,8 @@ func RunSchedule(t int, sc *Schedule, out *ndj.Writer, workdir string, grace tim
 	ctl.Emit("reset", Ev{"name": sc.Name, "class": sc.Class, "watcher": sc.Watcher, "role": sc.Role, "stage": sc.Stage, "csv": sc.Csv,
 		"restart": sc.Restart, "faults": append([]string{}, sc.Faults...), "procs": sc.Procs, "state": pre, "expect": sc.Expect, "steps": sc.Steps, "model": sc.Model})
 	unsettled := false
-	for i, pn := range sc.Steps {
-		obs := Ev{"i": i + 1, "p": pn}
+	step := func(i int, pn string) bool {
+		obs := Ev{"i": i, "p": pn}
 		if pn == "E" {
 			n := sc.Mine
 			if n == 0 {
@@ -215,9 +212,9 @@ func RunSchedule(t int, sc *Schedule, out *ndj.Writer, workdir string, grace tim
 			w.Chain[chain].Mine(n)
 			obs["st"] = "env"
 			ctl.Emit("step", obs)
-			continue
+			return true
 		}
-		ctl.Emit("step", Ev{"i": i + 1, "p": pn})
+		ctl.Emit("step", Ev{"i": i, "p": pn})
 		ctl.mu.Lock()
 		_, known := ctl.Procs[pn]
 		ctl.mu.Unlock()
@@ -231,10 +228,9 @@ func RunSchedule(t int, sc *Schedule, out *ndj.Writer, workdir string, grace tim
 				obs["noop"] = true
 			}
 		}
-		ok, _ := ctl.Settle(20 * time.Second)
+		ok, gs := ctl.Settle(20 * time.Second)
 		if !ok {
-			unsettled = true
-			break
+			return false
 		}
 		switch {
 		case isDriver && ctl.Done(pn):
@@ -245,8 +241,36 @@ func RunSchedule(t int, sc *Schedule, out *ndj.Writer, workdir string, grace tim
 		default:
 			obs["st"] = "blocked"
 		}
-		obs["all"] = ctl.statusAll(gs0(ctl))
+		obs["all"] = ctl.statusAll(gs)
 		ctl.Emit("after", obs)
+		return true
+	}
+	n := 0
+	for _, pn := range sc.Steps {
+		n++
+		if !step(n, pn) {
+			unsettled = true
+			break
+		}
+	}
+	// the run is completed under gate control as well: whoever is still parked
+	// (the Go scheduler may have resolved a lock hand-over differently from the
+	// exported schedule) is advanced, in a fixed order, until nobody is parked.
+	for !unsettled && n < len(sc.Steps)+400 {
+		ctl.mu.Lock()
+		var parked []string
+		for pn := range ctl.at {
+			parked = append(parked, pn)
+		}
+		ctl.mu.Unlock()
+		if len(parked) == 0 {
+			break
+		}
+		sort.Strings(parked)
+		n++
+		if !step(n, parked[0]) {
+			unsettled = true
+		}
 	}
 	// end of schedule: everything may run; whoever has not returned when the
 	// system is quiet again is blocked forever.
@@ -312,6 +336,10 @@ func (c *Ctl) stuck(gs []G) []Blocked {
 var holders = []string{").SendEvent", ").HandleCsvTx", "liquidBlockHeaderSubscriber).Update", ").AddWaitForConfirmationTx"}
 
 func (b *Blocked) holds() bool {
+	// the kick-off send of AddWaitForConfirmationTx is made with the watcher lock held
+	if b.State == "chan send" && len(b.Frames) > 0 && strings.HasSuffix(b.Frames[0], ").AddWaitForConfirmationTx") {
+		return true
+	}
 	for i, f := range b.Frames {
 		if i == 0 {
 			continue
@@ -354,27 +382,56 @@ func (b *Blocked) selfCycle() bool {
 	return false
 }
 
+// queued: the expected way of waiting behind a deadlocked swap: at the entry of
+// its state machine (the swap mutex), or RecoverSwaps waiting for its goroutines.
+func (b *Blocked) queued() bool {
+	return (len(b.Frames) > 0 && strings.HasSuffix(b.Frames[0], ").SendEvent")) || strings.HasPrefix(b.At, "semacquire@RecoverSwaps")
+}
+
+// sigOf: the deadlock's signature = entry point and wait site of the goroutines
+// that form it (self cycle, else those that hold a lock while waiting, else all
+// blocked ones), plus every other goroutine that is blocked somewhere else than
+// in the queue of the deadlocked swap.
 func sigOf(bl []Blocked) string {
 	var parts []string
-	for _, b := range bl {
+	core := map[int]bool{}
+	for i, b := range bl {
 		if b.selfCycle() {
 			parts = append(parts, b.name()+":"+b.At)
+			core[i] = true
 		}
 	}
 	if len(parts) == 0 {
-		for _, b := range bl {
+		for i, b := range bl {
 			if b.holds() {
 				parts = append(parts, b.name()+":"+b.At)
+				core[i] = true
 			}
 		}
 	}
 	if len(parts) == 0 {
-		for _, b := range bl {
+		for i, b := range bl {
 			parts = append(parts, b.name()+":"+b.At)
+			core[i] = true
 		}
 	}
 	sort.Strings(parts)
-	return strings.Join(parts, "+")
+	sig := strings.Join(parts, "+")
+	seen := map[string]bool{}
+	var also []string
+	for i, b := range bl {
+		x := b.name() + ":" + b.At
+		if core[i] || b.queued() || seen[x] {
+			continue
+		}
+		seen[x] = true
+		also = append(also, x)
+	}
+	if len(also) > 0 {
+		sort.Strings(also)
+		sig += "|also:" + strings.Join(also, "+")
+	}
+	return sig
 }
 
 // ---- stress mode ------------------------------------------------------------------
@@ -410,6 +467,8 @@ var Applicable = map[string][]Variant{
 	"pol_enable":    anyV,
 	"pol_allow":     anyV,
 	"pol_suspect":   anyV,
+	"pol_disallow":  anyV,
+	"pol_unsuspect": anyV,
 	"pol_reload":    anyV,
 	"pol_get":       anyV,
 	"recover":       anyV,
@@ -506,9 +565,13 @@ func RunStress(t int, sc *StressCase, out *ndj.Writer, workdir string, watchdog,
 		}
 		time.Sleep(50 * time.Microsecond)
 	}
-	// let callbacks / observers spawned by the entries finish
+	// real loops: let the poll / dispatcher goroutines see the registrations, a confirming block and a later block
 	if sc.Real {
-		time.Sleep(700 * time.Millisecond)
+		time.Sleep(650 * time.Millisecond)
+		w.Chain[chain].Mine(3)
+		time.Sleep(650 * time.Millisecond)
+		w.Chain[chain].Mine(1)
+		time.Sleep(650 * time.Millisecond)
 	}
 	ctl.Emit("end", Ev{"unsettled": false, "unreturned": 0})
 	w.Close()
@@ -547,6 +610,10 @@ func GenStress(seed int64, rounds int, entries []string) []*StressCase {
 					c.Entries = append(c.Entries, []string{"blk", "rpc_list", "pol_get", "rpc_resend"}[rng.Intn(4)])
 					c.Delays = append(c.Delays, rng.Intn(200))
 				}
+				// the RPC watcher's own polling and dispatcher goroutines (500 ms cadence) in a part of the block / confirmation cases
+				if c.Watcher != "el" && (e1 == "msg_opening" || e2 == "msg_opening" || e1 == "blk_obs" || e2 == "blk_obs" || e1 == "blk" || e2 == "blk") && rng.Intn(3) == 0 {
+					c.Real = true
+				}
 				c.Name = fmt.Sprintf("r%d/%s+%s/%s/%s/%s/%s", r, e1, e2, c.Watcher, v.Role, v.Stage, c.Csv)
 				out = append(out, c)
 			}
@@ -561,7 +628,7 @@ var _ = os.Getenv
 // StressEntries: the entry points exercised pairwise in stress mode.
 var StressEntries = []string{"msg_cancel", "msg_coop", "msg_coop_bad", "msg_opening", "msg_agreement", "msg_req_in", "msg_req_out",
 	"pay_claim", "pay_fee", "timeout", "blk", "blk_obs", "rpc_swapout", "rpc_swapin", "rpc_resend", "rpc_list",
-	"pol_disable", "pol_enable", "pol_allow", "pol_suspect", "pol_reload", "pol_get", "recover"}
+	"pol_disable", "pol_enable", "pol_allow", "pol_disallow", "pol_suspect", "pol_unsuspect", "pol_reload", "pol_get", "recover"}
 
 func gs0(c *Ctl) []G { _, gs := c.Settle(20 * time.Second); return gs }
 
@@ -596,14 +663,16 @@ func (c *Ctl) statusAll(gs []G) map[string]string {
 		if n != "obs" && n != "elw" && n != "rec" {
 			continue
 		}
-		if _, ok := out[n]; ok {
-			continue
+		if cur, ok := out[n]; ok && cur != "idle" {
+			continue // e.g. the observation loop of the stopped process still idles next to the new one
 		}
 		switch {
 		case n == "elw" && !g.has("liquidBlockHeaderSubscriber).Update"):
 			// idle in its select
 		case n == "obs" && g.State == "select":
-			out[n] = "idle"
+			if _, ok := out[n]; !ok {
+				out[n] = "idle"
+			}
 		default:
 			out[n] = "blocked"
 		}
